@@ -179,6 +179,59 @@ class _FormWalker(pathwalk.Walker):
                         return
 
 
+class _OnWalker(_FormWalker):
+    """follows file-local / same-class helpers so that `return SubmitReady(e, core)` yields the helper's constants"""
+
+    def inline(self, fn, n, st):
+        g = self.fb.fn.get(n.get('ck'))
+        if g is None or g.cfg is None or st.depth >= 2 or 'virtual' in g.flags:
+            return None
+        if g.file == fn.file and (not g.cls or g.cls == fn.cls) and g.ret == 'bool':
+            return g
+        return None
+
+
+def check_on_executor(ctx, fb, rule):
+    """R-ONEXEC — an awaiter that names an executor (On, AwaitOn of one or many, the event's AwaitOn) resumes the
+    coroutine THROUGH that executor on every path: await_suspend never answers "do not suspend" (false) — continuing
+    inline on the awaiting thread is not "on e", and for a stopped executor it skips the Drop that completes the
+    coroutine with StopError — and await_ready is constant false."""
+    n = 0
+    for f in sorted(fb.fn.values(), key=lambda f: f.full):
+        if f.cfg is None or not f.clsq.startswith('yaclib::') or f.n not in ('await_suspend', 'await_ready'):
+            continue
+        short = f.clsq.split('::')[-1]
+        if 'Unlock' in short or not ('OnAwaiter' in short or short == 'OnAwaiter'):
+            continue
+        rec = fb.records.get(f.cls) or fb.records.get(f.clsq)
+        key = 'R-ONEXEC %s::%s' % (short, f.n)
+        n += 1
+        if f.n == 'await_ready':
+            ctx.instance(rule, key + ' :: ' + f.full[:120], None)
+            rets = [x for x in f.own_nodes() if x['k'] == 'ReturnStmt' and x.get('ch')]
+            if not rets or not all((f.sn(x['ch'][0]) or {}).get('k') == 'CXXBoolLiteralExpr' and
+                                   not f.sn(x['ch'][0]).get('v') for x in rets):
+                ctx.report(rule, key, f.where, 'an executor-naming awaiter can be ready at once: the coroutine then '
+                           'continues inline on the awaiting thread instead of on the named executor',
+                           'instantiation: ' + f.full[:300])
+            continue
+        if f.ret == 'void':
+            ctx.instance(rule, key + ' :: ' + f.full[:120], dict(returns='void'))
+            continue
+        coro = {f.params[0]} if f.params else set()
+        res = _OnWalker(fb, coro).run(f)
+        ctx.instance(rule, key + ' :: ' + f.full[:120], dict(returns=f.ret, paths=len(res)))
+        for st, rv in res:
+            if rv is None or rv[0] != 'c':
+                ctx.broken('R-ONEXEC: %s returns a value that is not decided on the path (%s)' % (f.full[:120], rv))
+            if not rv[1]:
+                ctx.report(rule, key, f.where, 'a path of await_suspend answers "do not suspend": the coroutine continues '
+                           'inline on the awaiting thread instead of being resumed through the named executor (and a '
+                           'stopped executor no longer completes it with StopError)', 'instantiation: ' + f.full[:300])
+                break
+    return n
+
+
 def check_awaiter_forms(ctx, fb, rule):
     """R-AWAITERFORM — the suspend contract of the awaiters that schedule the coroutine themselves (On, Yield,
     CurrentExecutor ...): await_suspend that ends with `true` / without a value leaves the coroutine suspended, so the
@@ -283,11 +336,16 @@ def run(ctx):
                    minimum=6)
     rl = ctx.rule('R-LOOPCALLER', 'Here() of a callback object that is not a BaseCore returns nullptr on every path (the '
                   'Loop would call the returned core with that object as its caller)', minimum=15)
+    rox = ctx.rule('R-ONEXEC', 'an executor-naming awaiter (On, AwaitOn of one or many, the event\'s AwaitOn) resumes the '
+                   'coroutine through that executor on every path: await_suspend never answers "do not suspend", '
+                   'await_ready is constant false', minimum=6)
     raf = ctx.rule('R-AWAITERFORM', 'scheduling awaiters (On, Yield, CurrentExecutor, ...): a path of await_suspend that '
                    'leaves the coroutine suspended has handed it to somebody, a path returning false has not; '
                    'await_ready is constant false when await_suspend always hands the coroutine to an executor',
                    minimum=3)
     for cfg, fb in sorted(fbs.items()):
+        if (ctx.guard(lambda: check_on_executor(ctx, fb, rox)) or 0) < 4 and cfg == 'K20':
+            ctx.guard(lambda: ctx.broken('R-ONEXEC: executor-naming awaiters not instantiated'))
         if (ctx.guard(lambda: check_awaiter_forms(ctx, fb, raf)) or 0) < 2 and cfg == 'K20':
             ctx.guard(lambda: ctx.broken('R-AWAITERFORM: On / Yield / CurrentExecutor awaiters not instantiated'))
         ctx.guard(lambda: lib_core.check_loop_caller(ctx, fb, rl))
